@@ -10,7 +10,7 @@ EXTRA = {"C01-3": ["C11"], "C04-3": ["C14"], "C12-3": ["C02"], "C09-3": ["C01"],
          "C03-9": ["C01"], "C02-9": ["C01"], "C02-7": ["C10"], "C10-7": ["C02"], "C02-8": ["C03", "C01"], "C10-9": ["C02"], "C09-7": ["C16", "C01"], "C09-8": ["C08", "C01"],
          "C09-9": ["C01"], "C12-9": ["C02"], "C16-8": ["C04"], "C18-7": ["C14"], "C13-9": ["C02"], "C13-8": ["C12"],
          "C01-9": ["C08"], "C02-10": ["C01", "C03"], "C02-11": ["C03"], "C02-12": ["C10"], "C03-11": ["C01"], "C03-12": ["C01"], "C09-10": ["C08", "C01"],
-         "C09-11": ["C01"], "C09-12": ["C16", "C01"], "C08-10": ["C01"], "C08-11": ["C01"], "C04-10": ["C02"]}
+         "C09-11": ["C01"], "C09-12": ["C16", "C01"], "C08-10": ["C01"], "C08-11": ["C01"], "C04-10": ["C02"], "C04-12": ["C18"], "C16-11": ["C18"], "C14-10": ["C08"], "C14-11": ["C08"]}
 items = []
 for d in sorted(glob.glob(os.path.join(V, "seeded", "C*-*"))):
     n = os.path.basename(d)
